@@ -56,25 +56,31 @@ static void sbh_snapshot(KSI_TLV *base, sb_view *v) {
 static void sbh_make_signature(sb_view *old) {
 	size_t n = nondet_size(), i;
 	KSI_TLV *base = NULL;
-	memset(&s_sig, 0, sizeof(s_sig)); memset(&g_sbv, 0, sizeof(g_sbv));
+	memset(&g_sbv, 0, sizeof(g_sbv));
 	s_sig.ctx = S_CTX; s_sig.ref = 1;
 	s_shape = nondet_int();
 	__CPROVER_assume(s_shape >= 0 && s_shape <= 2);
 	__CPROVER_assume(n <= SB_MAX_CHILDREN);               /* the stated bound of the job */
 	sbv_clear(old);
 	if (s_shape != 0) {
-		base = malloc(sizeof(*base)); __CPROVER_assume(base != NULL);
+		base = malloc(sizeof(struct KSI_TLV_st)); __CPROVER_assume(base != NULL);
 		sbh_init_tlv(base, 0x800);
 		if (s_shape == 1) {
 			KSI_LIST(KSI_TLV) *l = NULL;
-			int r = KSI_TLVList_new(&l);
+			struct listImpl_st *im;
+			int r = KSI_TLVList_new(&l);                      /* REAL constructor: call-backs, obj_free = KSI_TLV_free */
 			__CPROVER_assume(r == KSI_OK);
+			/* the array is laid out directly (typed allocation: pointers kept in a calloc'ed byte array make CBMC's
+			 * propositional reduction run out of memory); slot count as after the first growth of appendElement */
+			im = (struct listImpl_st *)l->pImpl;
+			im->arr = malloc(sizeof(struct listEl_st) * KSI_LIST_SIZE_INCREMENT); __CPROVER_assume(im->arr != NULL);
+			im->arr_size = KSI_LIST_SIZE_INCREMENT; im->arr_len = n;
+			for (i = 0; i < KSI_LIST_SIZE_INCREMENT; i++) { im->arr[i].initialIdx = 0; im->arr[i].ptr = NULL; im->arr[i].cmp = NULL; }
 			for (i = 0; i < SB_MAX_CHILDREN; i++) if (i < n) {
-				KSI_TLV *k = malloc(sizeof(*k)); __CPROVER_assume(k != NULL);
+				KSI_TLV *k = malloc(sizeof(struct KSI_TLV_st)); __CPROVER_assume(k != NULL);
 				sbh_init_tlv(k, nondet_uint());
 				__CPROVER_assume(k->tag <= 0x1fff);
-				r = KSI_TLVList_append(l, k);
-				__CPROVER_assume(r == KSI_OK);
+				im->arr[i].ptr = k;
 			}
 			base->nested = l;
 		}
